@@ -20,7 +20,7 @@ def run(chk):
     broken = chk.obligations(REGISTRY["C14"])
     runner.build_harness()
     rng = random.Random("C14-%d" % chk.seed)
-    nbase = 150 if chk.tier == "quick" else 3000
+    nbase = chk.size(150, 3000)
     texts = []
     for i in range(nbase):
         t, sexp, k, lk = gen_parse.gen_script(chk.seed + 31, i, fancy=(i % 3 != 0), depth=2)
